@@ -777,6 +777,67 @@ func dropContractBlock(cfg *genesis.GenesisConfig, addr types.Address) bool {
 	return false
 }
 
+// readFileCase: the path a node takes — genesis.ReadGenesisConfigFromFile on the JSON file. It must return exactly one
+// of (genesis, nil) / (nil, error); a genesis iff CheckGenesis accepts; the same hash as the in-process construction.
+func readFileCase(c *Ctx, tmp, tag string, raw []byte, wantOK bool, wantHash string) {
+	fn := filepath.Join(tmp, "readfile.json")
+	os.WriteFile(fn, raw, 0o600)
+	var gen interface{ GetGenesisMomentum() *nom.Momentum }
+	var err error
+	panicked := false
+	func() {
+		defer func() {
+			if r := recover(); r != nil {
+				panicked = true
+			}
+		}()
+		g0, e0 := genesis.ReadGenesisConfigFromFile(fn)
+		err = e0
+		if g0 != nil {
+			gen = g0
+		}
+	}()
+	switch {
+	case panicked:
+		c.Hit("readfile:panic")
+		c.Fail("ReadGenesisConfigFromFile panicked (%s)", tag)
+	case gen == nil && err == nil:
+		c.Hit("readfile:nil-nil")
+		c.Fail("ReadGenesisConfigFromFile returned neither a genesis nor an error (%s): the caller reports \"Loaded a valid genesis config\"", tag)
+	case gen != nil && err == nil:
+		c.Hit("readfile:genesis")
+		if !wantOK {
+			c.Fail("ReadGenesisConfigFromFile accepted a configuration CheckGenesis refuses (%s)", tag)
+		} else if h := hex.EncodeToString(gen.GetGenesisMomentum().Hash.Bytes()); wantHash != "" && h != wantHash {
+			c.Fail("genesis hash read from file %s differs from in-process construction %s (%s)", h, wantHash, tag)
+		}
+	default:
+		c.Hit("readfile:error")
+		if wantOK {
+			c.Fail("ReadGenesisConfigFromFile refused (%v) a configuration CheckGenesis accepts (%s)", err, tag)
+		}
+	}
+}
+
+// dropFirstJSONField removes the first occurrence of `"<name>":<value>,` from a JSON text (value without commas).
+func dropFirstJSONField(raw []byte, name string) ([]byte, bool) {
+	s := string(raw)
+	i := strings.Index(s, `"`+name+`":`)
+	if i < 0 {
+		return nil, false
+	}
+	j := strings.IndexAny(s[i:], ",}")
+	if j < 0 {
+		return nil, false
+	}
+	if s[i+j] == ',' {
+		return []byte(s[:i] + s[i+j+1:]), true
+	}
+	// last field of its object: drop the preceding comma instead
+	k := strings.LastIndex(s[:i], ",")
+	return []byte(s[:k] + s[i+j:]), true
+}
+
 func startChain(dir string, cfg *genesis.GenesisConfig) (res string) {
 	defer func() {
 		if r := recover(); r != nil {
@@ -912,6 +973,18 @@ func init() {
 		// 0. the two built-in configurations pass their own validators (anchor: the generator starts from one of them)
 		c.Emit("gen-check %s | %s", encodeCfg(g.EmbeddedGenesis), checkReal(g.EmbeddedGenesis))
 		contentCase(c, genesisHeaders(g.EmbeddedGenesis))
+		// the excluded case of `writes_canonical`: list entries that share one storage key (the mock genesis has nine fusions
+		// of one owner with the zero id). Reversing such a list changes which entry survives, hence the hash — counted only.
+		{
+			hm, _ := genesisHash(g.EmbeddedGenesis)
+			rv := cloneCfg(g.EmbeddedGenesis)
+			f := rv.PlasmaConfig.Fusions
+			for i, j := 0, len(f)-1; i < j; i, j = i+1, j-1 {
+				f[i], f[j] = f[j], f[i]
+			}
+			hr, _ := genesisHash(rv)
+			c.Hit(fmt.Sprintf("duplicate-key-list-reversed:hash-differs=%v", hm != hr))
+		}
 		for i := 0; i < 20*nCfg; i++ {
 			contentCase(c, randHeaders(c))
 		}
@@ -989,6 +1062,24 @@ func init() {
 				if v == "ok" {
 					// accepted: the real ledger must satisfy the statement (this is what exposes accepted-but-inconsistent configs)
 					monitorAccepted(c, "perturbation "+pt.name+" of "+id, pc)
+				}
+			}
+			// 3b. the same through the JSON file a node reads (every 4th config: the config, one perturbation, and files with
+			//     a missing amount, which make the validators dereference nil)
+			if k%4 == 1 {
+				raw, _ := json.Marshal(cfg)
+				readFileCase(c, tmp, id, raw, true, h0)
+				pt := perturbations[c.R.Intn(len(perturbations))]
+				pc := permuteCfg(c, cfg)
+				if pt.f(c, pc) {
+					if v := checkReal(pc); v != "panic" {
+						rawp, _ := json.Marshal(pc)
+						readFileCase(c, tmp, "perturbation "+pt.name+" of "+id, rawp, v == "ok", "")
+					}
+				}
+				field := []string{"amount", "Amount", "totalSupply", "znn"}[c.R.Intn(4)]
+				if rawm, ok := dropFirstJSONField(raw, field); ok {
+					readFileCase(c, tmp, "missing-field "+field+" of "+id, rawm, false, "")
 				}
 			}
 			// 4. database created with A, node started with B != A: refused; with A again (also permuted): starts
